@@ -125,7 +125,21 @@ fn spec(prop: &str, alpha: Alpha, depth: usize, cfgs: Vec<Cfg>, oracles: Oracles
         oracles,
         wall_cap: Duration::from_secs(cap_s),
         grid_probes: false,
+        roots: vec![],
     }
+}
+
+/// Start states that short searches from the empty log do not reach: a
+/// re-append with a lower term after a truncation (closed chunks whose closing
+/// `last` is not monotone), a purged prefix with entries behind it, a double
+/// truncation.
+fn deep_roots() -> Vec<Vec<&'static str>> {
+    vec![
+        vec!["append", "append_t+2", "truncate_last", "append_t+1"],
+        vec!["append", "append_t+2", "append", "truncate_last", "truncate_last", "append_t+1"],
+        vec!["append", "append", "purge_first", "append"],
+        vec!["append", "vote_up", "append_t+1", "commit_last", "user_data", "append"],
+    ]
 }
 
 fn chunk_cfgs_all() -> Vec<Cfg> {
@@ -161,6 +175,14 @@ pub fn seq_phases(prop: &str, tier: &str) -> Vec<Phase> {
                         name: "core alphabet, rotation every 1-2 writes, deeper",
                         spec: spec(prop, Alpha::Core, 6, vec![Cfg::records(2), Cfg::records(3), Cfg::size(60)], o.clone(), 1200),
                     },
+                    Phase {
+                        name: "from deep start states (lower-term re-append, purged prefix, double truncation)",
+                        spec: {
+                            let mut s = spec(prop, Alpha::Core, 4, vec![Cfg::records(2), Cfg::records(3)], o.clone(), 900);
+                            s.roots = deep_roots();
+                            s
+                        },
+                    },
                 ]
             } else {
                 vec![
@@ -171,6 +193,14 @@ pub fn seq_phases(prop: &str, tier: &str) -> Vec<Phase> {
                     Phase {
                         name: "core alphabet, rotation every 1-2 writes, deeper",
                         spec: spec(prop, Alpha::Core, 5, vec![Cfg::records(2), Cfg::records(3)], o.clone(), 40),
+                    },
+                    Phase {
+                        name: "from deep start states (lower-term re-append, purged prefix, double truncation)",
+                        spec: {
+                            let mut s = spec(prop, Alpha::Core, 2, vec![Cfg::records(2), Cfg::records(3)], o.clone(), 30);
+                            s.roots = deep_roots();
+                            s
+                        },
                     },
                 ]
             }
@@ -246,6 +276,14 @@ pub fn seq_phases(prop: &str, tier: &str) -> Vec<Phase> {
                         name: "core alphabet, deeper",
                         spec: spec(prop, Alpha::Core, 6, vec![Cfg::records(2), Cfg::records(3), Cfg::size(60)], o.clone(), 1200),
                     },
+                    Phase {
+                        name: "from deep start states (lower-term re-append, purged prefix, double truncation)",
+                        spec: {
+                            let mut s = spec(prop, Alpha::Core, 4, vec![Cfg::records(2), Cfg::records(3)], o.clone(), 900);
+                            s.roots = deep_roots();
+                            s
+                        },
+                    },
                 ]
             } else {
                 vec![
@@ -253,6 +291,14 @@ pub fn seq_phases(prop: &str, tier: &str) -> Vec<Phase> {
                     Phase {
                         name: "core alphabet, deeper",
                         spec: spec(prop, Alpha::Core, 4, vec![Cfg::records(2), Cfg::records(3)], o.clone(), 40),
+                    },
+                    Phase {
+                        name: "from deep start states (lower-term re-append, purged prefix, double truncation)",
+                        spec: {
+                            let mut s = spec(prop, Alpha::Core, 2, vec![Cfg::records(2), Cfg::records(3)], o.clone(), 30);
+                            s.roots = deep_roots();
+                            s
+                        },
                     },
                 ]
             }
@@ -853,7 +899,14 @@ pub fn sched_specs(prop: &str, tier: &str) -> Vec<HistSpec> {
                     // a flush after the purge makes the removal due
                     syms[pp..].contains(&Sym::F) && (len < 5 || has(syms, Sym::A))
                 };
-                for h in schedx::histories(&alpha, len, &keep) {
+                let mut hs = schedx::histories(&alpha, len, &keep);
+                if len == max_len && thorough {
+                    // closed chunks whose closing `last` is not monotone (lower-term
+                    // re-append after a truncation), then a purge between them
+                    hs.push(schedx::from_syms(&[Sym::A, Sym::Aup, Sym::T, Sym::Alow, Sym::Plast, Sym::F]));
+                    hs.push(schedx::from_syms(&[Sym::A, Sym::Aup, Sym::T, Sym::Alow, Sym::Plast, Sym::F, Sym::W, Sym::I]));
+                }
+                for h in hs {
                     let cfgs: Vec<Cfg> = if len <= 3 { vec![Cfg::records(2), Cfg::records(3)] } else { vec![Cfg::records(2)] };
                     for c in &cfgs {
                         let mut s = base_spec(prop, h.clone(), *c);
